@@ -79,6 +79,11 @@ def run_bare(case, rng):
             rejected.append(sub)      # not part of the decoder: whatever it presents must not be seen upstream
             continue
         subs.append(sub)
+        if rng.random() < 0.1:
+            try:
+                dec.add(sub, name=f"again{i}")   # the same subordinate again: refused, and nothing may change
+            except ValueError:
+                pass
         if case.get("elaborate_between_adds") and rng.random() < 0.3:
             from amaranth.hdl import Fragment
             Fragment.get(dec, None)   # bring-up elaboration of a partly populated decoder; more windows follow
@@ -199,8 +204,17 @@ def run_diff(case, rng):
             st["n"] += 1
             try:
                 dec.add(child, name=None if rng.random() < 0.5 else f"w{st['n']}", **kw)
+                if rng.random() < 0.1:
+                    try:
+                        dec.add(child)               # duplicate add: refused, nothing may change
+                    except ValueError:
+                        pass
             except ValueError:
                 pass      # window does not fit: its registers are simply unreachable from the root
+            if rng.random() < 0.15:
+                from amaranth.hdl import Fragment
+                Fragment.get(dec, None)              # bring-up elaboration before the decoder is complete / nested
+                list(dec.bus.memory_map.window_patterns())
         return dec.bus
 
     root = mk_dec(case["aw"], case["depth"])
